@@ -277,3 +277,75 @@ def server_triple(a, af, ad, adg, f, verb_i, a1_i, a2_i):
         hb.KEY = f"failed-command-changed-tree:{verb}"
         return False
     return True
+
+
+# -------------------------------------------------------------------------------------------------------------------
+SEQ_OPS = ["STOR /a/f", "REST 3+STOR /a/f", "APPE /a/f", "RETR /a/f", "REST 3+RETR /a/f", "REST 12+STOR /a/f", "DELE /a/f", "REST 3+APPE /a/f", "STOR /a/n", "RNFR /a/f+RNTO /a/n"]
+SEQ_TREE = {"/a": "dir", "/a/f": P1}
+
+
+def run_server_seq(backend, ops):
+    """a sequence of client-visible operations (each transfer on a fresh data connection to one passive listener)"""
+    user = aioftp.User("bob", None, base_path="/srv")
+    fs = None
+    if backend == "memory":
+        server = st.make_server([user], path_io_factory=aioftp.MemoryPathIO, block_size=4)
+        st.build_tree(server, {"/srv": "dir", **{"/srv" + k: v for k, v in sorted(SEQ_TREE.items())}})
+    else:
+        fs = ModelFS({"/srv": "dir", **{"/srv" + k: v for k, v in SEQ_TREE.items()}})
+        server = st.make_server([user], path_io_factory=pathio.PathIO if backend == "pathio" else pathio.AsyncPathIO, block_size=4)
+        user.base_path = ModelPath(fs, "/srv")
+    LS.started.clear()
+    LS.fail = None
+    datas = []
+
+    def connector(payload):
+        def f(res):
+            live = [(p, cb, l) for p, cb, l in LS.started if cb is not None and not l.closed]
+            dr, dw = hb.ScriptReader([(0, payload)] if payload else [], eof=True), hb.CollectWriter()
+            datas.append(dw)
+            asyncio.ensure_future(live[-1][1](dr, dw))
+        return f
+
+    lines, hooks = ["PASV"], {}
+    for n, op in enumerate(ops):
+        parts = op.split("+")
+        for part in parts[:-1]:
+            lines.append(part)
+        last = parts[-1]
+        verb = last.split(" ")[0]
+        if verb in ("STOR", "APPE", "RETR"):
+            hooks[len(lines)] = connector(b"UV%d" % n if verb != "RETR" else b"")
+        lines.append(last)
+    res = st.dispatcher_session(server, dict(user=user, logged=True, cwd="/"), lines + ["PWD"], listeners=LS, hooks=hooks)
+    head, per = st.per_command_replies(res)
+    codes = [[c for c, sep, _ in r if sep == " "] for r in per[1: len(lines)]]
+    if backend == "memory":
+        snap = {k[len("/srv"):]: v for k, v in st.tree_paths(server).items() if k.startswith("/srv/")}
+    else:
+        snap = {k[len("/srv"):]: v for k, v in fs.snapshot().items() if k.startswith("/srv/")}
+    return codes, [d.data() for d in datas], snap, len(res.states) >= len(lines) + 1
+
+
+def server_seq(i0, i1, i2):
+    """the same 3-operation history on the three backends: same replies, same downloaded bytes, same tree"""
+    hb.KEY = ""
+    n = len(SEQ_OPS) - 1
+    ops = [SEQ_OPS[hb.conc(i0, 0, n)], SEQ_OPS[hb.conc(i1, 0, n)], SEQ_OPS[hb.conc(i2, 0, n)]]
+    results = [run_server_seq(b, ops) for b in BACKENDS]
+    hb.path_done("c18_seq", "|".join(ops))
+    ref = results[1]
+    for b, r in zip(BACKENDS, results):
+        if r[0] != ref[0]:
+            hb.KEY = f"seq-replies:{b}"
+            return False
+        if r[1] != ref[1]:
+            hb.KEY = f"seq-data:{b}"
+            return False
+        if r[2] != ref[2]:
+            hb.KEY = f"seq-tree:{b}"
+            return False
+        if not r[3]:
+            hb.KEY = f"seq-session-ended:{b}"
+            return False
+    return True
